@@ -199,8 +199,10 @@ func VerifTotalTwin(n int) {
 	}
 }
 
+var verifShapeSuffixes = []string{"", "e0", "e1", "e2", "e3", "e-1", "e-2", "e-5", "E+7", "e12", "e-8", "e-9", "e-10", "e-95", "e20", "e-3", "e-4"}
+
 // VerifNumberShape: Number(I "." F suffix, prec<=0) with I of i symbolic digits, F of f symbolic digits (i = n/10,
-// f = n%10) and the exponent suffix from the list: the print-form transitions (integer / decimal / exponent form,
+// f = n%10) and the exponent suffix from a list of 17: the print-form transitions (integer / decimal / exponent form,
 // digits moved across the dot in both directions) for mantissas longer than the all-lexeme harnesses reach.
 func VerifNumberShape(n int) {
 	ni, nf := n/10, n%10
@@ -208,7 +210,7 @@ func VerifNumberShape(n int) {
 	for _, c := range d {
 		vAssume('0' <= c && c <= '9')
 	}
-	sfx := verifExpSuffixes[vChoice("sfx", len(verifExpSuffixes))]
+	sfx := verifShapeSuffixes[vChoice("sfx", len(verifShapeSuffixes))]
 	total := ni + 1 + nf + len(sfx)
 	buf := make([]byte, 0, total+3)
 	buf = append(buf, d[:ni]...)
